@@ -45,7 +45,8 @@ def build(rng, casedir, index, tier, stable=None, size=None, nrec=None, tags="sa
     w.mode = mode or rng.choice(["plain", "plain", "bgzf", "pysam"])
     w.layout = rng.choice(["standard", "tiny", "tiny", "line_start"])
     w.gaf = os.path.join(casedir, "a.gaf" + ("" if w.mode == "plain" else ".gz"))
-    ggaf.write_gaf(w.gaf, lines, mode=w.mode, rng=rng, layout=w.layout)
+    w.final_newline = rng.random() >= 0.15
+    ggaf.write_gaf(w.gaf, lines, mode=w.mode, rng=rng, layout=w.layout, final_newline=w.final_newline)
     w.blocks = bgzf.BgzfIndex(w.gaf).data_blocks() if w.mode != "plain" else 0
     w.aligned = set().union(*w.nodesets) if w.nodesets else set()
     w.unaligned = [n for n in g.nodes if n not in w.aligned]
